@@ -320,30 +320,45 @@ func C16(c *Ctx) {
 			if !isRet || len(rt.Results) != 1 || !ssau.IsNilConst(rt.Results[0]) {
 				continue
 			}
-			n7++
-			okN := nothingToWrite(writeState, 0, batchIdx)(b, nil)
-			if !okN {
-				// ... or a helper's verdict that implies it
-				for _, cl := range factCallTrue(b) {
-					h := cl.Common().StaticCallee()
-					if h == nil || prog.PkgOf(h) != "cmd/mcrew" {
-						continue
-					}
-					hr, hb := -1, -1
-					for i, a := range cl.Common().Args {
-						if a == ssa.Value(writeState.Params[0]) {
-							hr = i
-						}
-						if batchIdx >= 0 && a == ssa.Value(writeState.Params[batchIdx]) {
-							hb = i
-						}
-					}
-					if trueImplies(h, 0, nothingToWrite(h, hr, hb)) {
-						okN = true
-					}
+			// the ways into a return that several guards share (`if s == nil || len(mss) == 0 { return nil }`) are judged
+			// one by one
+			type way struct {
+				at    *ssa.BasicBlock
+				extra []flow.Fact
+			}
+			ways := []way{{b, nil}}
+			if !nothingToWrite(writeState, 0, batchIdx)(b, nil) && len(b.Preds) >= 2 && len(b.Instrs) == 1 {
+				ways = nil
+				for _, p := range b.Preds {
+					ways = append(ways, way{p, flow.EdgeFacts(p, b)})
 				}
 			}
-			c.R.Check(okN, "C16-R7", fmt.Sprintf("WriteState: success without a transaction #%d only when there is nothing to write", n7), c.pos(rt), "under 'no storage configured' (nil receiver) or an empty batch", "WriteState answers success without having written in a case where records were given to a configured storage: memory then advances without a persistent write")
+			for _, w := range ways {
+				n7++
+				okN := nothingToWrite(writeState, 0, batchIdx)(w.at, w.extra)
+				if !okN && w.extra == nil {
+					// ... or a helper's verdict that implies it
+					for _, cl := range factCallTrue(b) {
+						h := cl.Common().StaticCallee()
+						if h == nil || prog.PkgOf(h) != "cmd/mcrew" {
+							continue
+						}
+						hr, hb := -1, -1
+						for i, a := range cl.Common().Args {
+							if a == ssa.Value(writeState.Params[0]) {
+								hr = i
+							}
+							if batchIdx >= 0 && a == ssa.Value(writeState.Params[batchIdx]) {
+								hb = i
+							}
+						}
+						if trueImplies(h, 0, nothingToWrite(h, hr, hb)) {
+							okN = true
+						}
+					}
+				}
+				c.R.Check(okN, "C16-R7", fmt.Sprintf("WriteState: success without a transaction #%d only when there is nothing to write", n7), c.pos(rt), "under 'no storage configured' (nil receiver) or an empty batch", "WriteState answers success without having written in a case where records were given to a configured storage: memory then advances without a persistent write")
+			}
 		}
 		// Put/Delete only inside the literal
 		var lit *ssa.Function
